@@ -48,6 +48,7 @@ func init() {
 			{Name: "sharing", Run: runSharing},
 			{Name: "wrappers", Run: runWrappers},
 			{Name: "env", Run: runEnv},
+			{Name: "reentrant", Run: runReentrant},
 			{Name: "roundtrip", Run: runRoundtrip},
 			{Name: "ptext", Run: runPText},
 			{Name: "stringify", Run: runStringify},
